@@ -20,7 +20,7 @@ func init() {
 		Doc:  "name lower-casing dataflow; defaults-before-call option order; nil option / nil value guards; tag writer/reader agreement; signature rejections; struct walk",
 		Run:  runOpts,
 		Floor: map[string]int{
-			"LOWER": 4, "OPTORDER": 3, "NILOPT": 2, "NILOPT-F": 3, "REFLVALID": 3, "TAGS": 4, "REJECT": 7, "STRUCTWALK": 6,
+			"LOWER": 4, "OPTORDER": 5, "NILOPT": 2, "NILOPT-F": 3, "REFLVALID": 3, "TAGS": 4, "REJECT": 8, "STRUCTWALK": 6,
 		},
 	})
 }
@@ -303,6 +303,60 @@ func runOpts(c *Ctx) {
 			c.R.Add("NILOPT", "applier|nil-option-is-error", "optionApplier", p.Pos(applier.Pos()), nilRet, "a nil option makes the applier return a non-nil error", fmt.Sprintf("ok=%v", nilRet))
 		} else {
 			c.R.Undecided("OPTORDER", "applier|call", "optionApplier", p.Pos(applier.Pos()), "no dynamic option call found")
+		}
+	}
+
+	// =============== OPTORDER (subtyped tables): an entry of the builder's by-subtype tables is written only under a
+	// non-empty subtype. The empty subtype belongs to the plain tables: a value filed under "" in a subtyped table names
+	// the same vertex as the plain entry and silently overrides it whatever the option order.
+	{
+		n := 0
+		for _, f := range p.ArgFuncs() {
+			core.Instrs(f, func(in ssa.Instruction) {
+				mu, ok := in.(*ssa.MapUpdate)
+				if !ok {
+					return
+				}
+				// inner map of argBuilder.<x>Sub: a map[string]reflect.Value looked up in a field of the builder
+				if core.TypeStr(mu.Map.Type()) != "map[string]reflect.Value" {
+					return
+				}
+				lk, ok := core.Strip(mu.Map).(*ssa.Lookup)
+				if !ok {
+					return
+				}
+				fr, ok := core.AsFieldLoad(lk.X)
+				if !ok || fr.Owner != "argBuilder" {
+					return
+				}
+				n++
+				// the subtype key: a captured option-constructor parameter (or a parameter itself)
+				key := mu.Key
+				var lits []core.Lit
+				lits = append(lits, p.ILits(in.Block())...)
+				if d := p.DerefFree(key); d != nil {
+					key = d
+				}
+				if fv, ok := key.(*ssa.FreeVar); ok {
+					if b := p.Binding(fv); b != nil {
+						key = b
+					}
+				}
+				if mc := p.ClosureSite(f); mc != nil {
+					lits = append(lits, p.ILits(mc.Block())...)
+				}
+				nonEmpty := false
+				for _, l := range lits {
+					if l.Kind == "cmp" && l.Op == token.EQL && !l.Pol {
+						if s0, ok := core.ConstString(l.Y); ok && s0 == "" && (l.X == key || core.Path(l.X) == core.Path(key)) {
+							nonEmpty = true
+						}
+					}
+				}
+				c.R.Add("OPTORDER", fmt.Sprintf("%s|subtyped-table-entry-has-subtype#%d", core.FuncName(core.Outer(f)), n), core.FuncName(core.Outer(f)), p.InstrPos(in), nonEmpty,
+					"a by-subtype table of the builder is written only under a non-empty subtype (the empty subtype is the plain table's: both would name the same vertex)",
+					ternary(nonEmpty, "guarded by subtype != \"\"", "entry "+fr.Field+"[…]["+core.Path(mu.Key)+"] can be written with an empty subtype"))
+			})
 		}
 	}
 
@@ -1226,6 +1280,48 @@ func (c *Ctx) runReject(walker *ssa.Function) {
 		c.R.Add("REJECT", "isStruct|all-pointer-levels", "isStruct", p.Pos(isStruct.Pos()), loop,
 			"marker detection unwraps every pointer level (so that multiply indirected marker structs reach the depth check instead of being taken for plain values)", fmt.Sprintf("loop=%v", loop))
 	}
+	// the marker field: recognised only when the field is embedded (Anonymous) AND of the marker type — a named field
+	// of that type is an ordinary value
+	if mf := c.markerFieldPredicate(); mf != nil {
+		c.R.Func(core.FuncName(mf))
+		okM, why := true, ""
+		nTrue := 0
+		for _, bc := range core.BoolCases(mf) {
+			if k, isK := core.ConstBool(bc.Val); isK && !k {
+				continue
+			}
+			nTrue++
+			anon, typ := false, false
+			check := func(l core.Lit) {
+				if l.Kind == "bool" && l.Pol {
+					if fr, ok := core.AsFieldLoad(l.Of); ok && fr.Owner == "reflect.StructField" && fr.Field == "Anonymous" {
+						anon = true
+					}
+				}
+				if l.Kind == "cmp" && l.Op == token.EQL && l.Pol {
+					for _, v := range []ssa.Value{l.X, l.Y} {
+						if fr, ok := core.AsFieldLoad(v); ok && fr.Owner == "reflect.StructField" && fr.Field == "Type" {
+							typ = true
+						}
+					}
+				}
+			}
+			for _, l := range bc.Lits {
+				check(l)
+			}
+			// the returned value itself may be the last conjunct
+			check(core.LitOf(bc.Val, true))
+			if !(anon && typ) {
+				okM = false
+				why = fmt.Sprintf("a true result without both tests (embedded=%v marker-type=%v)", anon, typ)
+			}
+		}
+		if nTrue == 0 {
+			okM, why = false, "no true result"
+		}
+		c.R.Add("REJECT", "marker-field|embedded-and-of-marker-type", core.FuncName(mf), p.Pos(mf.Pos()), okM,
+			"a struct field is the argmapper marker only when it is embedded and of the marker type", ternary(okM, "both tests on every true result", why))
+	}
 	if walker != nil {
 		ok, _ := errReturnGuardedBy(walker, func(l core.Lit) bool {
 			if l.Kind != "cmp" || l.Op != token.GTR || !l.Pol {
@@ -1729,4 +1825,33 @@ func capLimited(v ssa.Value) bool {
 		return false
 	}
 	return sl.Max == sl.High || core.Path(sl.Max) == core.Path(sl.High)
+}
+
+// markerFieldPredicate finds the predicate over a reflect.StructField that compares its Type with the package-level
+// marker type (the function that decides whether a field is the argmapper.Struct marker).
+func (c *Ctx) markerFieldPredicate() *ssa.Function {
+	for _, f := range c.P.ArgFuncs() {
+		if f.Parent() != nil || len(f.Params) != 1 || core.TypeStr(f.Params[0].Type()) != "reflect.StructField" {
+			continue
+		}
+		if f.Signature.Results().Len() != 1 || !types.Identical(f.Signature.Results().At(0).Type(), types.Typ[types.Bool]) {
+			continue
+		}
+		found := false
+		core.Instrs(f, func(in ssa.Instruction) {
+			if b, ok := in.(*ssa.BinOp); ok && b.Op == token.EQL {
+				for _, v := range []ssa.Value{b.X, b.Y} {
+					if ld, ok := v.(*ssa.UnOp); ok {
+						if _, isG := ld.X.(*ssa.Global); isG {
+							found = true
+						}
+					}
+				}
+			}
+		})
+		if found {
+			return f
+		}
+	}
+	return nil
 }
